@@ -42,6 +42,21 @@ def battery(rng, tier):
         env = {k: rng.choice(gen_misc.LITS) for k in gen_misc.VARS}
         env["python_full_version"] = rng.choice(["3.12.1", "3.8.0", "3.13.0+"]); env["python_version"] = rng.choice(["3.12", "3.8"])
         out.append(Case("battery", "det.marker", [gen_misc.marker(rng, 3), json.dumps(env)]))
+        envs = []
+        for _ in range(rng.choice([2, 3, 4])):
+            e2 = dict(env)
+            for k in rng.sample(gen_misc.VARS, 3): e2[k] = rng.choice(gen_misc.LITS)
+            e2["python_version"] = rng.choice(["3.8", "3.12", "2.7", "3.10"]); e2["python_full_version"] = e2["python_version"] + rng.choice([".0", ".1", ".9"])
+            envs.append(e2)
+        out.append(Case("battery", "det.marker.multi", [gen_misc.marker(rng, 2), json.dumps(envs)]))
+        # reversed operands with version-valued variables: the right operand is then the environment value
+        atoms = []
+        for _ in range(rng.choice([1, 2])):
+            var = rng.choice(["python_version", "python_full_version", "implementation_version", "platform_release"])
+            atoms.append(rng.choice(['"%s" %s %s', "%s %s %s"][:1]) % (rng.choice(["3.8", "3.10", "2.7", "3.12.1", "3"]), rng.choice(["<=", "<", ">=", ">", "==", "!=", "~="]), var))
+        for e2 in envs:
+            e2["implementation_version"] = e2["python_full_version"]; e2["platform_release"] = rng.choice(["3.8", "5.15", "2.7.1", "3.12"])
+        out.append(Case("battery", "det.marker.multi", [rng.choice([" and ", " or "]).join(atoms), json.dumps(envs)]))
         tagtxt = "%s-%s-%s" % (".".join(rng.sample(["py2", "py3", "cp39", "cp312"], rng.choice([1, 2, 3]))),
                                ".".join(rng.sample(gen_misc.ABIS[:4], rng.choice([1, 2]))), ".".join(rng.sample(gen_misc.PLATS, rng.choice([1, 2, 3]))))
         out.append(Case("battery", "det.tags", [tagtxt]))
@@ -160,7 +175,7 @@ def extra_checks(rng, tier, core, replay=None):
     violations, nontrivial = [], []
     for i, c in enumerate(cases):
         o = ref[i]
-        if isinstance(o, str) and (o.startswith("MUTATED-ARGUMENT") or o.startswith("REPEAT-DIFFERS") or o == "OBJECT-CHANGED" or o.startswith("!EXC")):
+        if isinstance(o, str) and (o.startswith("MUTATED-ARGUMENT") or o.startswith("REPEAT-DIFFERS") or o == "OBJECT-CHANGED" or o.startswith("!EXC") or o.startswith("HISTORY-DEPENDENT")):
             violations.append({"kind": "failing-input", "why": "call battery: " + o[:60], "case": c.to_json(), "impl": o, "model": None, "extra": {"cases": [c.to_json()]}})
             continue
         if not (isinstance(o, str) and o.startswith("E")): nontrivial.append(c.key())
